@@ -5,6 +5,8 @@ import (
 	"fmt"
 	"log"
 	"sync"
+
+	"github.com/jcmturner/gokrb5/v8/types"
 )
 
 // Settings holds optional client settings.
@@ -12,6 +14,7 @@ type Settings struct {
 	disablePAFXFast         bool
 	assumePreAuthentication bool
 	preAuthEType            int32
+	preAuthHints            types.PADataSequence
 	logger                  *log.Logger
 	// mux guards assumePreAuthentication and preAuthEType, which AS exchanges update while other goroutines use the client.
 	mux sync.RWMutex
@@ -81,6 +84,20 @@ func (s *Settings) setNegotiatedPreAuthEType(e int32) {
 	s.mux.Lock()
 	defer s.mux.Unlock()
 	s.preAuthEType = e
+}
+
+// negotiatedPreAuthHints returns the string-to-key hints (salt, parameters) the KDC sent with its last pre-authentication error.
+func (s *Settings) negotiatedPreAuthHints() types.PADataSequence {
+	s.mux.RLock()
+	defer s.mux.RUnlock()
+	return s.preAuthHints
+}
+
+// setNegotiatedPreAuthHints records the string-to-key hints of the KDC.
+func (s *Settings) setNegotiatedPreAuthHints(pas types.PADataSequence) {
+	s.mux.Lock()
+	defer s.mux.Unlock()
+	s.preAuthHints = pas
 }
 
 // Logger used to configure client with a logger.
